@@ -622,7 +622,7 @@ def gen_cases(tier, rng):
             for th in ANGLES:
                 yield pcps_case("pcps.circuit", th, m, method)
                 yield pcps_case("pcps.circuit", th, m, method, placement="test")
-            for _ in range(60 if thorough else 8):
+            for _ in range(150 if thorough else 8):
                 yield pcps_case("pcps.circuit", rand_angle(rng), m, method, rng, placement="random")
     if thorough:
         for m in (5, 6):
@@ -644,7 +644,7 @@ def gen_cases(tier, rng):
             yield {"op": "pcps.matrix", "theta": 0.5, "proj": proj, "method": method}
     # ---- eigenvalue transformation
     maxlen = 9 if thorough else 7
-    reps = 6 if thorough else 1
+    reps = 10 if thorough else 1
     for L in range(1, maxlen + 1):
         for bmeth in ("Wx", "Wxi", "R"):
             for method in METHODS:
